@@ -124,7 +124,7 @@ static void run(const Case &c, Info &info) {
             // gating: no note may be active on a disabled channel or on channels of a disabled track
             OPNMIDIplay *p = I.play();
             for(size_t ch = 0; ch < 16 && ch < p->m_midiChannels.size(); ch++) {
-                bool ch_off = (cfg.chan_off_mask >> ch) & 1; size_t owner = (ch / 2) % (nt ? nt : 1); bool tr_off = song.format == 1 && nt > 1 && ch / 2 < nt && !track_on[ch / 2];
+                bool ch_off = (cfg.chan_off_mask >> ch) & 1; size_t owner = (ch / 2) % (nt ? nt : 1); bool tr_off = song.format == 1 && nt > 1 && !song.shared && ch / 2 < nt && !track_on[ch / 2];
                 (void)owner;
                 if(ch_off || tr_off) VCHECK(p->m_midiChannels[ch].activenotes.empty(), "a note is sounding on MIDI channel %zu although its %s is disabled", ch, ch_off ? "channel" : "track");
             }
@@ -168,7 +168,7 @@ static void run(const Case &c, Info &info) {
     for(size_t gi = 0; gi < got.size(); gi++) {
         Ev &d = got[gi];
         int k = 0;
-        if(d.type >= 0x08 && d.type <= 0x0E) k = (song.format == 0 || nt == 1) ? 0 : (d.ch / 2) % (int)nt;
+        if(d.type >= 0x08 && d.type <= 0x0E) k = (song.format == 0 || nt == 1) ? 0 : (song.shared && !d.data.empty() ? ((d.data.back() - 1) / 16) % (int)nt : (d.ch / 2) % (int)nt);
         else if(d.type == 0xF0 && d.data.size() >= 3) k = d.data[2] % (int)nt;
         else if(d.type == 0xFF && (d.sub >= 0x01 && d.sub <= 0x07 || d.sub == 0x7F) && !d.data.empty()) k = d.data[0] % (int)nt;
         else if(d.type == 0xFF && d.sub == 0x2F) { // End-of-Track carries no stamp: it belongs to a track whose current tick group still holds its End-of-Track
@@ -209,6 +209,7 @@ static void run(const Case &c, Info &info) {
     // (2) order constraints inside one tick group of one track
     for(size_t k = 0; k < nt; k++) {
         std::set<std::pair<int, int>> on; // sounding (ch,key) before the group
+        std::map<std::pair<int, int>, int> cnt; // note-ons minus note-offs (floored at 0): a key is only taken as silent when this agrees (on,on,off at one tick leaves it open)
         size_t i = 0; std::vector<Ev> seq; for(const Ev &d : got) if(d.track == (int)k) seq.push_back(d);
         while(i < seq.size()) {
             size_t j = i; while(j < seq.size() && seq[j].tick == seq[i].tick) j++;
@@ -233,10 +234,17 @@ static void run(const Case &c, Info &info) {
                     for(size_t y = i; y < j; y++) if(seq[y].type == 0x09 && seq[y].ch == seq[q].ch && seq[y].data[0] == seq[q].data[0] && seq[y].file_idx < seq[q].file_idx) on_between = true;
                     if(!on_between) VCHECK(false, "track %zu tick %llu: the file has note-off %d/%d BEFORE the note-on of that (silent) key, but it was delivered after it (the new note is cut at once)", k, (unsigned long long)seq[i].tick, seq[q].ch, seq[q].data[0]);
                 }
+            // a key that was NOT sounding in this track: a note-off that the file writes AFTER a note-on of that key at this tick (a zero-length note) is not delivered before every such note-on
+            for(size_t q = i; q < j; q++) if(seq[q].type == 0x08 && !on.count({seq[q].ch, seq[q].data[0]}) && cnt[{seq[q].ch, seq[q].data[0]}] == 0) {
+                bool on_before_in_file = false, on_before_delivered = false;
+                for(size_t y = i; y < j; y++) if(seq[y].type == 0x09 && seq[y].ch == seq[q].ch && seq[y].data[0] == seq[q].data[0]) { if(seq[y].file_idx < seq[q].file_idx) on_before_in_file = true; if(y < q) on_before_delivered = true; }
+                bool off_before_in_file = false; for(size_t y = i; y < j; y++) if(seq[y].type == 0x08 && y != q && seq[y].ch == seq[q].ch && seq[y].data[0] == seq[q].data[0] && seq[y].file_idx < seq[q].file_idx) off_before_in_file = true;
+                if(on_before_in_file && !off_before_in_file) VCHECK(on_before_delivered, "track %zu tick %llu: the file has note-on %d/%d and THEN its note-off at one tick (zero-length note of a silent key), but the note-off was delivered first (the note is left hanging)", k, (unsigned long long)seq[i].tick, seq[q].ch, seq[q].data[0]);
+            }
             for(size_t q = i; q < j; q++) { if(seq[q].type == 0x09) on.insert({seq[q].ch, seq[q].data[0]}); }
             // keys released in this group (in file order semantics: an off after an on of the same tick releases it)
             { std::vector<Ev> byfile(seq.begin() + (long)i, seq.begin() + (long)j); std::sort(byfile.begin(), byfile.end(), [](const Ev &a, const Ev &b) { return a.file_idx < b.file_idx; });
-              for(const Ev &e : byfile) { if(e.type == 0x09) on.insert({e.ch, e.data[0]}); else if(e.type == 0x08) on.erase({e.ch, e.data[0]}); } }
+              for(const Ev &e : byfile) { if(e.type == 0x09) { on.insert({e.ch, e.data[0]}); cnt[{e.ch, e.data[0]}]++; } else if(e.type == 0x08) { on.erase({e.ch, e.data[0]}); int &n = cnt[{e.ch, e.data[0]}]; if(n > 0) n--; } } }
             i = j;
         }
     }
@@ -253,7 +261,7 @@ int main(int argc, char **argv) {
     if(c.mode == "replay") return replay_main([](const std::string &s) { Info info; run(deser(s), info); });
     bool audio = c.mode == "audio";
     pbt(audio ? "c07_sequencer_audio" : "c07_sequencer_tick", c.n, 40, [audio]() {
-        Case cs; cs.song = *genSong();
+        Case cs; cs.song = *genSong(true);
         size_t nt = cs.song.tracks.size();
         cs.cfg.mult = *rc::gen::weightedOneOf<double>({{3, rc::gen::just(1.0)}, {3, rc::gen::element(0.25, 0.5, 1.5, 4.0)}, {1, rc::gen::map(rng<int>(10, 800), [](int v) { return v / 100.0; })}});
         cs.cfg.gran_sel = *rng<int>(0, 2); cs.cfg.step_policy = *rng<int>(0, 2); cs.cfg.step_sel = *rng<int>(0, 5); cs.cfg.rate_sel = *rng<int>(0, 2);
@@ -274,7 +282,7 @@ int main(int argc, char **argv) {
             Info info; run(cs, info);
             Stats &st = ctx().stats;
             st.note_case(s, (info.multi_track || info.tempo_change_later) && info.two_classes_one_tick);
-            if(info.multi_track) st.label("tracks>=2"); if(info.tempo_change_later) st.label("tempo_change_after_tick0"); if(info.two_classes_one_tick) st.label("tick_with_>=2_event_classes");
+            if(info.multi_track) st.label("tracks>=2"); if(cs.song.shared) st.label("tracks_share_channels_and_keys"); if(info.tempo_change_later) st.label("tempo_change_after_tick0"); if(info.two_classes_one_tick) st.label("tick_with_>=2_event_classes");
             if(info.gating) st.label("track/channel_gating"); st.label(info.audio ? "audio_driven" : "tick_driven"); st.addnum("events_delivered", (double)info.delivered);
         });
     });
